@@ -18,6 +18,18 @@ Variable origin : path -> content.
 Definition CacheSound (d : disk) : Prop :=
   forall n, is_adv n = true -> d n <> None -> resolve d n = Some (origin n, true).
 
+(* The sections of a package a builder downloads are what the origin serves
+   for the names they get in the cache: content is determined by the key
+   (collision-free SHA-1/SHA-256, a deterministic signature over the control
+   section, gunzip of the data section). *)
+Definition served (dir : string) (a : apk) : Prop :=
+  a_ctl a = origin (PMember dir MCtl (a_ctlh a)) /\
+  (forall s, a_sig a = Some s -> s = origin (PMember dir MSig (a_ctlh a))) /\
+  a_dat a = origin (PMember dir MDat (a_dath a)) /\
+  a_tar a = origin (PMember dir MTar (a_dath a)).
+Definition builders_ok (bs : list builder) : Prop :=
+  forall dir a, In (BPackage dir a) bs -> served dir a.
+
 (* what a build obtains for one package (directory [dir], control checksum
    [ctlh]) without a cache, and with the cache in state [d] *)
 Variable datahash_of : content -> string.
